@@ -1,0 +1,42 @@
+//go:build verif
+// +build verif
+
+// Package verifhook carries the verification-only hook points. Without the
+// "verif" build tag every function here is an empty, inlinable stub.
+package verifhook
+
+import (
+	"sync/atomic"
+	"time"
+)
+
+// Enabled reports whether the hooks are compiled in.
+const Enabled = true
+
+var handler atomic.Value // of func(point string)
+
+var syncInterval int64 // nanoseconds
+
+// Set installs (or, with nil, removes) the function called at every hook
+// point.
+func Set(f func(point string)) {
+	if f == nil {
+		f = func(string) {}
+	}
+	handler.Store(f)
+}
+
+// Yield marks a schedule-relevant point in thunder. The installed handler may
+// delay the calling goroutine or start other work; it must not block forever.
+func Yield(point string) {
+	if f, ok := handler.Load().(func(string)); ok {
+		f(point)
+	}
+}
+
+// SetSyncInterval overrides the federation executor's schema refresh interval
+// for executors created afterwards (0 = no override).
+func SetSyncInterval(d time.Duration) { atomic.StoreInt64(&syncInterval, int64(d)) }
+
+// SyncInterval returns the override set with SetSyncInterval.
+func SyncInterval() time.Duration { return time.Duration(atomic.LoadInt64(&syncInterval)) }
